@@ -47,7 +47,7 @@ def main():
             P.PRE[pid](ctx)
         except Exception as e:
             ctx.tie_broken("T-src", {"error": str(e)[-2000:]})
-    lean = common.lean_obligations(pid)
+    lean = common.lean_obligations(pid, tier)
     try:
         P.CHECKS[pid](ctx)
     except Exception as e:  # a broken runner is a broken tie, reported as such
